@@ -27,6 +27,7 @@ type Profile struct {
 	ObsReload   bool // observations include a fresh load of the current bytes
 	DetBias     int  // per-mille probability of deterministic/explicit-time variants
 	FailReaders bool
+	Sign        int // per-mille probability that an operation is an (ed25519 DSSE, deterministic) Sign
 	Foreign     int // per-mille probability that a history starts from a foreign (Lean-encoded) image
 	BadMagic    int // per-mille probability, among foreign images, of a non-canonical magic/version
 }
@@ -376,6 +377,19 @@ func (g *Gen) nextOp(f *sif.FileImage) *Op {
 	r := g.r
 	in := inspect(f)
 	reject := r.Intn(1000) < g.p.Rejects
+	if g.p.Sign > 0 && r.Intn(1000) < g.p.Sign && len(in.groups) > 0 {
+		// ed25519 DSSE signatures are deterministic: the whole image stays reproducible
+		u := getUniverse()
+		k := 100
+		for i, dk := range u.DSSE {
+			if dk.kind == "ed25519" {
+				k = 100 + i
+				break
+			}
+		}
+		g.count("op:sign")
+		return &Op{Kind: "sign", S: SOpts{PGP: -1, DSSE: []int{k}, T: g.topt()}}
+	}
 	x := r.Intn(100)
 	switch {
 	case x < 42:
